@@ -26,7 +26,7 @@ fn class_of(msg: &str) -> String {
     s.chars().take(70).collect()
 }
 
-fn all_ops(n: usize) -> Vec<Op> {
+pub fn all_ops(n: usize) -> Vec<Op> {
     let mut v = vec![];
     let nk = n as K;
     for a in 0..nk {
@@ -384,4 +384,40 @@ pub fn replay<F: Flav>(v: &serde_json::Value) -> bool {
             }
         }
     }
+}
+
+/// Shortest histories reaching every canonical abstract state (no checks).
+pub fn enumerate_states<F: Flav>(n: usize, max_edges: usize) -> Vec<Vec<Op>> {
+    let ops = all_ops(n);
+    let mut seen: HashSet<u64> = HashSet::new();
+    let mut queue: VecDeque<Vec<Op>> = VecDeque::new();
+    let mut out = vec![];
+    queue.push_back(vec![]);
+    {
+        let w = World::<F>::new(n);
+        if let Ok(o) = observe::<F>(&w) {
+            seen.insert(fnv_str(&o.canon()));
+        }
+    }
+    while let Some(hist) = queue.pop_front() {
+        out.push(hist.clone());
+        for op in &ops {
+            let mut w = World::<F>::new(n);
+            for h in &hist {
+                let _ = exec::<F>(&mut w, *h, (0, 0));
+            }
+            let (res, _, _) = exec::<F>(&mut w, *op, (0, 0));
+            if matches!(res, Res::Panic(_)) {
+                continue;
+            }
+            if let Ok(post) = observe::<F>(&w) {
+                if post.live_edges(F::DIRECTED) <= max_edges && seen.insert(fnv_str(&post.canon())) {
+                    let mut nh = hist.clone();
+                    nh.push(*op);
+                    queue.push_back(nh);
+                }
+            }
+        }
+    }
+    out
 }
